@@ -44,6 +44,10 @@ struct Client {
 struct Truth {
     by_serial: BTreeMap<(String, u64), Content>,
     reset_expected: bool,
+    /// The client looks again only after the interrupted reset was followed
+    /// by further updates: the new session is then first seen at a later
+    /// serial, with the deltas of its own updates (never the old session's).
+    reset_seen_late: bool,
 }
 
 struct Checked {
@@ -135,7 +139,11 @@ fn client_check(
             out.issues.push(("session-changed-without-reset".into(), format!(
                 "{where_}: {} -> {}", client.session, st.session)));
         }
-        if st.serial != 1 || !st.deltas.is_empty() {
+        let own_run = st.deltas.len() as u64 <= st.serial.saturating_sub(1);
+        if (!truth.reset_seen_late
+                && (st.serial != 1 || !st.deltas.is_empty()))
+            || (truth.reset_seen_late && !own_run)
+        {
             out.issues.push(("reset-not-at-serial-1-without-deltas".into(),
                 format!("{where_}: new session starts at serial {} with {} \
                          deltas", st.serial, st.deltas.len())));
@@ -356,6 +364,7 @@ fn history(r: &mut Report, args: &Args, idx: u64, seed: u64) {
 
     for step in 0..n_steps {
         let what = rng.weighted(&[70, 8, 6, 16]);
+        let union_before = srv.union();
         match what {
             1 => {
                 // explicit session reset
@@ -422,6 +431,15 @@ fn history(r: &mut Report, args: &Args, idx: u64, seed: u64) {
                         wit(&steps, json!({})));
             return
         };
+        // two requests that cancel each other out (publish, then withdraw
+        // of the same objects before the update) leave nothing to publish:
+        // there is no update then, and no new serial
+        if what != 1 && !last_session.is_empty() && st.session == last_session
+            && st.serial == last_serial && srv.union() == union_before
+        {
+            r.count("steps_without_net_change", 1);
+            continue
+        }
         truth.by_serial.insert((st.session.clone(), st.serial), srv.union());
         // serial arithmetic
         if !last_session.is_empty() {
@@ -619,6 +637,7 @@ fn history(r: &mut Report, args: &Args, idx: u64, seed: u64) {
                 }
             };
             let mut t2 = truth.clone();
+            t2.reset_seen_late = final_reset;
             t2.by_serial.insert((st.session.clone(), st.serial), srv2.union());
             let chk = client_check(&repo, &mut c2, &t2, &ret,
                 &format!("after {realisation} at {} ({label}) + update", m.n));
